@@ -639,9 +639,12 @@ def p14(rep):
         for x in walk(fn["body"]):
             if x["k"] == "IfStmt" and (x.get("mac") == "scAdvance0" or any((y.get("mac") == "scAdvance0") for y in walk(x["c"][0]))):
                 c = strip(x["c"][0])
-                if c is not None and c["k"] == "BinaryOperator" and c["op"] == "==" and const_value(c["c"][1]) == 9 and \
+                if c is not None and c["k"] == "BinaryOperator" and c["op"] in ("==", "!=") and const_value(c["c"][1]) == 9 and \
                         any(y["k"] == "DeclRefExpr" and y["n"] == "scLine" for y in walk(c["c"][0])):
-                    branch = x
+                    # `!= '\t'` with the branches exchanged is the same test
+                    tab_side = x["c"][1] if c["op"] == "==" else (x["c"][2] if len(x["c"]) > 2 else None)
+                    if tab_side is not None:
+                        branch = dict(x, c=[x["c"][0], tab_side])
                     break
     if branch is None:
         raise AnalysisBroken("scan.c: the TAB branch of scAdvance0 was not found")
